@@ -59,6 +59,12 @@ CHECKS.update({
                           "executed on a Ready connection of the real code (compression negotiated or not, several masking keys), what was handed to sendall is decoded by an independent "
                           "server-side decoder (and inflated by an independent zlib peer), and Mon_C03 (TLC) judges each call.",
             "level_note": _NOTE + "481 table rows x 2 (quick) / 4 masking keys; payload lengths at the 125/126, 65535/65536 boundaries. close() with a wrong-typed code is outside the statement's classes."},
+    "C10": {"technique": "explicit TLA+ handshake specification (spec/Handshake.tla: abstract reply classes -> verdict; URL -> Host/target) and case generator (spec/GenC10.tla) evaluated by TLC; every case replayed into the real code in several RFC 7230-equivalent spellings and segmentations; traces judged by the TLA+ monitor Mon_C10 evaluated by TLC",
+            "level_text": "The specification defines the verdict (Ready / Rejected / ProtocolError) for every abstract reply class and the request a URL/option set must produce; TLC enumerates "
+                          "all classes; the harness concretises each into equivalent spellings, computes the RFC 6455 digest from the key parsed out of the request actually written, runs two "
+                          "connection attempts per object and Mon_C10 (TLC) checks request well-formedness, key freshness, Ready iff correct reply, reporting of protocol/extensions, no message "
+                          "events and a closed socket otherwise.",
+            "level_note": _NOTE + "Digest/base64/token comparisons are data-level facts established by the harness (hashlib, base64). Known finding K1 (case-insensitive accept comparison) is reported as KNOWN-FINDING."},
     "C14": _sess("Mon_C14", "pongs = answerable pings (payload, order, multiplicity), each written before its Ping event; none with auto_pong off; failing pong writes do not disturb the event stream (twin run)",
                  "<= 3 (quick) / 4 frames incl. 125-byte all-byte-values ping blobs, several items per read, application send/close reactions, failing writes."),
 })
